@@ -22,7 +22,7 @@ from .core import canon, ddmin, digest, shrink_text_lines, sub_rng
 
 CHECK = "C13"
 CHUNK = 24
-SET_KEYS = ("phase_overlap", "preempt_pairs")
+SET_KEYS = ("phase_overlap", "preempt_pairs", "swept_sites")
 TIERS = {"quick": 2400, "thorough": 40000}
 WALL_CAP = {"quick": 600.0, "thorough": 3300.0}
 DET_SAMPLE = {"quick": 64, "thorough": 1000}
@@ -266,7 +266,36 @@ def gen_probe_case(run_seed: int, tier: str, shape: str) -> dict[str, Any]:
     return {"check": CHECK, "run_seed": run_seed, "shape": shape, "epochs": epochs, "policy": policy, "faults": faults, "granularity": "call", "est_steps": est_steps, "step_cap": 0}
 
 
-def gen_case(run_seed: int, tier: str) -> dict[str, Any]:
+GEN_TAKES_INDEX = True
+SWEEP_EVERY = 5  # every 5th run index belongs to the systematic single-preemption sweep
+
+
+def gen_sweep_case(run_seed: int, tier: str, j: int) -> dict[str, Any]:
+    """
+    Systematic single-preemption schedule: two simulated threads format two all-features
+    documents; thread x is parked at the (j-th, cyclically) distinct yield site of its own
+    execution, thread y then runs to completion, x resumes. Sweeping j over the site inventory
+    covers every "x has set something, y clobbers it, x reads it back" window of this workload
+    once per direction - including sites that are passed only once or twice per call, which a
+    step-uniform random scheduler almost never hits.
+    """
+    w = sub_rng(run_seed, "workload")
+    docs = [corpus.PROBE_ALL, corpus.PROBE_ALL_B]
+    if w.random() < 0.3:
+        docs[w.randrange(2)] = corpus.gen_doc(w, 6)
+    base = corpus.gen_options(w, allow_plaintext=False)
+    base["plaintext"] = False
+    o2 = dict(base) if w.random() < 0.6 else dict(corpus.gen_options(w, allow_plaintext=False), plaintext=False)
+    threads = [[{"api": "reformat_text", "text": docs[0], "kw": base}], [{"api": "reformat_text", "text": docs[1], "kw": o2}]]
+    gran = ["call", "return"][(j // 2) % 2]
+    policy = {"kind": "sweep", "x": j % 2, "site_number": j // 4, "seed": w.getrandbits(32)}
+    est = sum(len(d) for d in docs) * (5 if gran == "call" else 10)
+    return {"check": CHECK, "run_seed": run_seed, "shape": "site_sweep", "epochs": [{"threads": threads}], "policy": policy, "faults": [], "granularity": gran, "est_steps": est, "step_cap": 0}
+
+
+def gen_case(run_seed: int, tier: str, index: int | None = None) -> dict[str, Any]:
+    if index is not None and index % SWEEP_EVERY == SWEEP_EVERY - 1:
+        return gen_sweep_case(run_seed, tier, index // SWEEP_EVERY)
     shape = sub_rng(run_seed, "shape").choices(["mixed", "abort_probe", "history_probe"], [65, 20, 15])[0]
     if shape != "mixed":
         return gen_probe_case(run_seed, tier, shape)
@@ -472,6 +501,31 @@ def _dry_run(env: Env, case: dict[str, Any], calls: list[dict[str, Any]]) -> sch
     return s
 
 
+def _resolve_sweep(env: Env, case: dict[str, Any], threads: list[list[dict[str, Any]]], pol: dict[str, Any]) -> dict[str, Any]:
+    """Dry run of thread x to learn its site inventory; pick the site_number-th distinct site."""
+    import random
+
+    x = pol["x"] % len(threads)
+    y = 1 - x if len(threads) == 2 else (x + 1) % len(threads)
+    s = _dry_run(env, case, threads[x])
+    assert s.site_trace is not None
+    trace = s.site_trace.get(0, [])
+    if not trace:
+        return {"kind": "none"}
+    distinct: list[int] = []
+    seen: set[int] = set()
+    for st in trace:
+        if st not in seen:
+            seen.add(st)
+            distinct.append(st)
+    n = pol["site_number"]
+    site = distinct[n % len(distinct)]
+    lap = n // len(distinct)
+    count = trace.count(site)
+    k = 1 if lap == 0 else random.Random(pol["seed"]).randint(1, count)
+    return {"kind": "targeted_named", "x": x, "y": y, "site_name": s.site_names[site - 1], "k": k, "m": 10**9, "dry_steps": len(trace), "distinct_sites": len(distinct)}
+
+
 class TargetedNamed(sched.Policy):
     def __init__(self, desc: dict[str, Any]) -> None:
         self.d = desc
@@ -512,7 +566,7 @@ def run_case(env: Env, case: dict[str, Any], want_trace: bool = False) -> dict[s
     env.caches.clear_all()
     pol_desc = case["policy"]
     per_epoch: PerEpoch | None = None
-    if pol_desc["kind"] == "targeted":
+    if pol_desc["kind"] in ("targeted", "sweep"):
         per_epoch = PerEpoch()
         policy: sched.Policy = per_epoch
     else:
@@ -563,7 +617,7 @@ def run_case(env: Env, case: dict[str, Any], want_trace: bool = False) -> dict[s
             dry_done[str(ep_i)] = dry_replay[str(ep_i)]
         if per_epoch is not None:
             if len(live) > 1:
-                td = _resolve_targeted(env, case, ep_i, threads, pol_desc["seed"])
+                td = _resolve_sweep(env, case, threads, pol_desc) if pol_desc["kind"] == "sweep" else _resolve_targeted(env, case, ep_i, threads, pol_desc["seed"])
                 resolved_targets.append(td)
                 if "x" in td:
                     dry_done[str(ep_i)] = td["x"]
@@ -642,6 +696,7 @@ def run_case(env: Env, case: dict[str, Any], want_trace: bool = False) -> dict[s
         "phase_overlap": sorted(f"{a}|{b}" for a, b in s.phase_overlap),
         "preempt_pairs": sorted({digest([s.site_names[a - 1] if a else "", s.site_names[b - 1] if b else ""], 10) for a, b in s.preempt_pairs}),
         "sites": len(s.site_names),
+        "swept_sites": sorted({f"{case['granularity']}:{td['x']}:{td['site_name']}" for td in resolved_targets if td.get("kind") == "targeted_named" and pol_desc["kind"] == "sweep"}),
     }
     if want_trace or verdict != "ok":
         res["switches"] = [list(x) for x in s.switches]
